@@ -25,6 +25,7 @@ import (
 	"oras.land/oras-go/v2/content"
 	"oras.land/oras-go/v2/content/file"
 	"oras.land/oras-go/v2/content/memory"
+	"oras.land/oras-go/v2/content/oci"
 	"oras.land/oras-go/v2/errdef"
 	"oras.land/oras-go/v2/registry/remote"
 )
@@ -583,13 +584,15 @@ func runCopy(mode string, seed int64, tier string, sc *Script) map[string]any {
 			sc.Count(fmt.Sprintf("rootflow:refpusher=%v,present=%v", refPusher, present))
 		}
 	}
-	// C01 end to end with a real registry client on one or both sides (the in-process
-	// registry of C13): resolveRoot through FetchReference, the root pushed by reference,
-	// blobs through the two-step upload.  Judged on the end state only.
+	// C01 end to end over every pairing of source and destination kinds - memory, OCI layout,
+	// file store, and a real registry client against the in-process registry of C13 (resolveRoot
+	// through FetchReference, the root pushed by reference, blobs through the two-step upload).
+	// Judged on the end state only.
 	if mode == "C01" {
-		reps := 24
+		kinds := []string{"memory", "oci", "file", "remote"}
+		reps := 32
 		if tier == "thorough" {
-			reps = 400
+			reps = 480
 		}
 		for i := 0; i < reps; i++ {
 			u := GenDAG(rng, GenCfg{Blobs: 1 + rng.Intn(4), Manifests: 1 + rng.Intn(5), Subjects: true, Indexes: true, EmptyBlob: rng.Intn(2) == 0})
@@ -603,9 +606,12 @@ func runCopy(mode string, seed int64, tier string, sc *Script) map[string]any {
 			if root < 0 {
 				continue
 			}
-			sc.Case("copy-remote")
+			srcKind, dstKind := kinds[i%4], kinds[(i/4)%4]
+			if srcKind == "memory" && dstKind != "remote" {
+				srcKind = "remote" // memory sources against local destinations are what the traced runs cover
+			}
+			sc.Case("copy-pairing")
 			sc.NonTrivial()
-			srcRemote, dstRemote := i%3 != 1, i%3 != 0
 			reg := newFakeRegistry(regProfile{ReferrersAPI: i%2 == 0, DigestHeaders: true, Ranges: true, Mount: true})
 			mkRepo := func(name string) *remote.Repository {
 				r, err := remote.NewRepository(reg.Host() + "/" + name)
@@ -616,64 +622,79 @@ func runCopy(mode string, seed int64, tier string, sc *Script) map[string]any {
 				return r
 			}
 			closure := downClosure(u, []int{root})
-			var src oras.ReadOnlyTarget
-			if srcRemote {
-				r := mkRepo("src/repo")
-				// children first: a registry refuses nothing, but keeps the order honest
-				order := append([]int(nil), closure...)
-				sort.Ints(order)
-				for _, k := range order {
-					n := u.Nodes[k]
-					if n.Kind == KForeign {
-						continue
+			var cleanups []func()
+			mkStore := func(kind, name string) oras.Target {
+				dir := filepath.Join(tmp, fmt.Sprintf("pair%d-%s", i, name))
+				switch kind {
+				case "memory":
+					return memory.New()
+				case "oci":
+					o, err := oci.New(dir)
+					if err != nil {
+						panic(err)
 					}
-					if err := r.Push(ctx, n.Desc, bytes.NewReader(n.Bytes)); err != nil {
-						panic(fmt.Sprintf("seed push %d: %v", k, err))
+					cleanups = append(cleanups, func() { os.RemoveAll(dir) })
+					return o
+				case "file":
+					f, err := file.New(dir)
+					if err != nil {
+						panic(err)
 					}
+					cleanups = append(cleanups, func() { f.Close(); os.RemoveAll(dir) })
+					return f
 				}
-				if err := r.Tag(ctx, u.Nodes[root].Desc, "srcref"); err != nil {
-					panic(err)
+				return mkRepo(name + "/repo")
+			}
+			src := mkStore(srcKind, "src")
+			// children first
+			order := append([]int(nil), closure...)
+			sort.Ints(order)
+			for _, k := range order {
+				n := u.Nodes[k]
+				if n.Kind == KForeign {
+					continue
 				}
-				src = r
-			} else {
-				m := memory.New()
-				pushAll(ctx, m, u, closure)
-				m.Tag(ctx, u.Nodes[root].Desc, "srcref")
-				src = m
+				if err := src.Push(ctx, n.Desc, bytes.NewReader(n.Bytes)); err != nil && !errors.Is(err, errdef.ErrAlreadyExists) {
+					panic(fmt.Sprintf("seed push %d into %s: %v", k, srcKind, err))
+				}
 			}
-			var dst oras.Target
-			if dstRemote {
-				dst = mkRepo("dst/repo")
-			} else {
-				dst = memory.New()
+			if err := src.Tag(ctx, u.Nodes[root].Desc, "srcref"); err != nil {
+				panic(err)
 			}
+			dst := mkStore(dstKind, "dst")
 			dstRef := []string{"", "v2"}[(i/3)%2]
 			got, err := oras.Copy(ctx, src, "srcref", dst, dstRef, oras.CopyOptions{CopyGraphOptions: oras.CopyGraphOptions{Concurrency: 1 + rng.Intn(3)}})
 			res := "ok"
 			if err != nil {
 				res = "err:" + strings.ReplaceAll(err.Error(), " ", "_")
-			} else if u.IDOf(ocispec.Descriptor{MediaType: got.MediaType, Digest: got.Digest, Size: got.Size}) != root {
+			} else if got.Digest != u.Nodes[root].Desc.Digest || got.MediaType != u.Nodes[root].Desc.MediaType {
 				res = "returned-other-root"
 			}
+			// what must be there: by digest for the digest-keyed destinations
 			var want []int
 			for _, k := range closure {
 				if u.Nodes[k].Kind != KForeign {
 					want = append(want, k)
 				}
 			}
-			sc.Op(res, "cp remote res src=%v dst=%v", srcRemote, dstRemote)
-			sc.Op(presentSet(ctx, dst, u), "cp xpresent all=%s", fmtSet(want))
+			sc.Op(res, "cp remote res src=%s dst=%s", srcKind, dstKind)
+			sc.Op(presentByDigest(ctx, dst, u, want), "cp xpresent all=%s", fmtSet(want))
 			ref := dstRef
 			if ref == "" {
 				ref = "srcref"
 			}
 			tagged := "unresolved"
-			if d, rerr := dst.Resolve(ctx, ref); rerr == nil {
-				tagged = fmt.Sprint(u.IDOf(ocispec.Descriptor{MediaType: d.MediaType, Digest: d.Digest, Size: d.Size}))
+			if d, rerr := dst.Resolve(ctx, ref); rerr == nil && d.Digest == u.Nodes[root].Desc.Digest {
+				tagged = fmt.Sprint(root)
+			} else if rerr == nil {
+				tagged = "other:" + d.Digest.Encoded()[:8]
 			}
 			sc.Op(tagged, "cp tagged root=%d", root)
 			runs++
-			sc.Count(fmt.Sprintf("copy-remote:src=%v,dst=%v", srcRemote, dstRemote))
+			sc.Count(fmt.Sprintf("copy-pairing:src=%s,dst=%s", srcKind, dstKind))
+			for _, f := range cleanups {
+				f()
+			}
 			reg.Close()
 		}
 	}
@@ -1127,4 +1148,23 @@ func (f *failOnceDst) Push(ctx context.Context, d ocispec.Descriptor, r io.Reade
 		return errInjected
 	}
 	return f.Target.Push(ctx, d, r)
+}
+
+// presentByDigest: which of the wanted nodes can be fetched back from the store byte for byte
+// (nodes that share a digest count together), as a set of node ids.
+func presentByDigest(ctx context.Context, st oras.Target, u *Universe, want []int) string {
+	var have []int
+	for _, k := range want {
+		n := u.Nodes[k]
+		rc, err := st.Fetch(ctx, n.Desc)
+		if err != nil {
+			continue
+		}
+		b, rerr := io.ReadAll(rc)
+		rc.Close()
+		if rerr == nil && bytes.Equal(b, n.Bytes) {
+			have = append(have, k)
+		}
+	}
+	return fmtSet(have)
 }
